@@ -22,9 +22,22 @@ package authgrants
 //     / close mid-message) or the REAL StartTargetInstance with recording
 //     checkIntent / addAuthGrant stubs that accept, refuse or fail to store.
 //
-// Oracle = history invariants of the property statement, judged per request
-// (events are attributed to the request that is in flight; requests are
-// strictly sequential and separated by quiescence, so attribution is exact).
+// Oracle = history invariants of the property statement, judged per request.
+// Events are attributed to the request that is in flight. A request that is NOT
+// sent ahead is written after the answer to its predecessor and one virtual
+// second of silence, so attribution is exact. SEND-AHEAD (pipelining): the
+// delegate may write further complete requests before it reads the outstanding
+// answers - the delegate connection is a reliable byte stream, the statement
+// quantifies over all sequences of requests on it and nothing in the protocol
+// description ties writing a request to having read the previous answer (the
+// principal "keeps the AGT open in case the Delegate would like to send more").
+// Every request that was written completely is a request and must get exactly
+// one answer. Inside such a group the request in flight is the one the principal
+// is working on: the principal reads the delegate connection only to fetch the
+// next request and writes on it only to answer, so the first Read it issues
+// after a Write starts the next request of the group (c06DelegateSide); the j-th
+// answer the delegate reads for a group answers its j-th request (answers carry
+// no tag: they can only correspond by order).
 
 import (
 	"bytes"
@@ -110,6 +123,9 @@ type c06Req struct {
 	GSeed  uint64 `json:"gs,omitempty"`
 	GLen   int    `json:"gl,omitempty"`
 	GFirst byte   `json:"gf,omitempty"` // first garbage byte (never 3 = confirmation)
+	// how the delegate puts this request on the wire
+	Ahead bool `json:"ahead,omitempty"` // written right behind the previous request, before the outstanding answers are read (never for the first request)
+	Split int  `json:"split,omitempty"` // 0: no pause; -1: the stream pauses (1 virtual ns: everybody else runs until blocked) just before this message; s>0: it pauses inside this message, after s%len bytes
 }
 
 type c06Case struct {
@@ -507,10 +523,12 @@ type c06Ev struct {
 }
 
 type c06World struct {
-	c   c06Case
-	mu  sync.Mutex
-	cur int
-	evs []c06Ev
+	c      c06Case
+	mu     sync.Mutex
+	cur    int  // request in flight
+	grpEnd int  // last request of the group that is on the wire (== cur unless requests were sent ahead)
+	pWrote bool // the principal wrote on the delegate connection since it last started to read from it
+	evs    []c06Ev
 	// connections handed out by setup
 	pEnds, tEnds []net.Conn
 	wg           sync.WaitGroup
@@ -526,7 +544,52 @@ func (w *c06World) log(e c06Ev) {
 	w.mu.Unlock()
 }
 
-func (w *c06World) setCur(k int) { w.mu.Lock(); w.cur = k; w.mu.Unlock() }
+// logAt records an event for an explicitly named request (answers read by the delegate).
+func (w *c06World) logAt(req int, e c06Ev) {
+	w.mu.Lock()
+	e.Seq = len(w.evs)
+	e.Req = req
+	w.evs = append(w.evs, e)
+	w.mu.Unlock()
+}
+
+func (w *c06World) setCur(k int) { w.setGroup(k, k) }
+
+// setGroup: requests first..last are about to be written back to back.
+func (w *c06World) setGroup(first, last int) {
+	w.mu.Lock()
+	w.cur, w.grpEnd, w.pWrote = first, last, false
+	w.mu.Unlock()
+}
+
+// c06DelegateSide is the principal's end of the delegate connection. The principal reads
+// it only to fetch the next request and writes on it only to answer; hence, while a group
+// of requests sent ahead is on the wire, its first Read after a Write means that it has
+// finished one request and turns to the next one. (Without send-ahead grpEnd == cur and
+// nothing changes here.)
+type c06DelegateSide struct {
+	net.Conn
+	w *c06World
+}
+
+func (c *c06DelegateSide) Read(p []byte) (int, error) {
+	c.w.mu.Lock()
+	if c.w.pWrote {
+		c.w.pWrote = false
+		if c.w.cur < c.w.grpEnd {
+			c.w.cur++
+		}
+	}
+	c.w.mu.Unlock()
+	return c.Conn.Read(p)
+}
+
+func (c *c06DelegateSide) Write(b []byte) (int, error) {
+	c.w.mu.Lock()
+	c.w.pWrote = true
+	c.w.mu.Unlock()
+	return c.Conn.Write(b)
+}
 
 // req returns the script entry of the request in flight (the zero entry —
 // refuse, confirm — while the trailer is in flight).
@@ -703,10 +766,13 @@ func (w *c06World) realTarget(idx int, c net.Conn) {
 }
 
 // readAnswers parses what arrives on the delegate connection until the
-// connection has been silent for one (virtual) second or is closed.
-func (w *c06World) readAnswers(c net.Conn) {
+// connection has been silent for one (virtual) second or is closed. m requests
+// (first, first+1, ...) are outstanding: the j-th answer belongs to the j-th of
+// them, anything beyond to the last.
+func (w *c06World) readAnswers(c net.Conn, first, m int) {
 	wait := 10 * time.Second
-	for n := 0; n < 8; n++ {
+	for n := 0; n < 8+2*m; n++ {
+		req := first + min(n, m-1)
 		c.SetReadDeadline(time.Now().Add(wait))
 		var b [1]byte
 		if _, err := io.ReadFull(c, b[:]); err != nil {
@@ -716,21 +782,21 @@ func (w *c06World) readAnswers(c net.Conn) {
 		c.SetReadDeadline(time.Now().Add(time.Second))
 		switch b[0] {
 		case 3:
-			w.log(c06Ev{Kind: "answer", OK: true, Note: "confirmation"})
+			w.logAt(req, c06Ev{Kind: "answer", OK: true, Note: "confirmation"})
 		case 4:
 			var l [1]byte
 			if _, err := io.ReadFull(c, l[:]); err != nil {
-				w.log(c06Ev{Kind: "answer", Note: "partial-denial"})
+				w.logAt(req, c06Ev{Kind: "answer", Note: "partial-denial"})
 				return
 			}
 			s := make([]byte, l[0])
 			if _, err := io.ReadFull(c, s); err != nil {
-				w.log(c06Ev{Kind: "answer", Note: "partial-denial"})
+				w.logAt(req, c06Ev{Kind: "answer", Note: "partial-denial"})
 				return
 			}
-			w.log(c06Ev{Kind: "answer", Note: "denial", Bytes: s})
+			w.logAt(req, c06Ev{Kind: "answer", Note: "denial", Bytes: s})
 		default:
-			w.log(c06Ev{Kind: "answer", Note: fmt.Sprintf("unknown-type-%d", b[0])})
+			w.logAt(req, c06Ev{Kind: "answer", Note: fmt.Sprintf("unknown-type-%d", b[0])})
 			junk := make([]byte, 4096)
 			c.Read(junk)
 			return
@@ -740,19 +806,55 @@ func (w *c06World) readAnswers(c net.Conn) {
 
 // scenario runs inside the bubble.
 func (w *c06World) scenario() {
-	dP, dD := c06Pipe(w.c.Deliv) // principal's end, delegate's end
+	pSide, dD := c06Pipe(w.c.Deliv) // principal's end, delegate's end
 	w.wg.Add(1)
 	go func() {
 		defer w.wg.Done()
-		w.guard("StartPrincipalInstance", func() { StartPrincipalInstance(dP, w.callback, w.setup) })
-		dP.Close() // hopclient closes the delegate tube when the instance returns
+		w.guard("StartPrincipalInstance", func() { StartPrincipalInstance(&c06DelegateSide{Conn: pSide, w: w}, w.callback, w.setup) })
+		pSide.Close() // hopclient closes the delegate tube when the instance returns
 	}()
-	for k := range w.c.Reqs {
-		w.setCur(k)
-		msg := append([]byte{1}, w.c.wire(k).body()...)
-		_, err := dD.Write(msg)
-		w.log(c06Ev{Kind: "reqwrite", OK: err == nil})
-		w.readAnswers(dD)
+	for k := 0; k < len(w.c.Reqs); {
+		m := 1
+		for k+m < len(w.c.Reqs) && w.c.Reqs[k+m].Ahead {
+			m++
+		}
+		w.setGroup(k, k+m-1)
+		// the byte stream of the group, cut where the script says the stream pauses
+		var segs [][]byte
+		var seg []byte
+		flush := func() {
+			if len(seg) > 0 {
+				segs = append(segs, seg)
+			}
+			seg = nil
+		}
+		for j := k; j < k+m; j++ {
+			msg := append([]byte{1}, w.c.wire(j).body()...)
+			switch sp := w.c.Reqs[j].Split; {
+			case sp < 0:
+				flush()
+				seg = msg
+			case sp > 0:
+				seg = append(seg, msg[:sp%len(msg)]...)
+				flush()
+				seg = append(seg, msg[sp%len(msg):]...)
+			default:
+				seg = append(seg, msg...)
+			}
+		}
+		flush()
+		ok := true
+		for i, b := range segs {
+			if i > 0 {
+				time.Sleep(time.Nanosecond) // everybody else runs until blocked: what was written so far arrives on its own
+			}
+			if _, err := dD.Write(b); err != nil {
+				ok = false
+			}
+		}
+		w.logAt(k, c06Ev{Kind: "reqwrite", OK: ok})
+		w.readAnswers(dD, k, m)
+		k += m
 	}
 	if msg, closeAfter, _ := w.c.trailer(); msg != nil {
 		w.setCur(len(w.c.Reqs))
@@ -760,7 +862,7 @@ func (w *c06World) scenario() {
 		if closeAfter {
 			dD.Close()
 		} else {
-			w.readAnswers(dD)
+			w.readAnswers(dD, len(w.c.Reqs), 1)
 		}
 	}
 	w.setCur(len(w.c.Reqs) + 1)
@@ -943,8 +1045,14 @@ func c06Judge(c c06Case, evs []c06Ev, v *vlib.Verdict) {
 			for _, a := range answers {
 				kinds = append(kinds, a.Note+"("+string(a.Bytes)+")")
 			}
-			v.Failf(fmt.Sprintf("C06:answers-per-request:%d:%s:%s", len(answers), class, path), "request %d (%s, %s): the delegate read %d answers before one second of silence: %s",
-				k, class, path, len(answers), strings.Join(kinds, ", "))
+			how, sfx := "", ""
+			if first, m := c06Group(c, k); m > 1 {
+				// answers correspond to the requests of a group by order; name the situation, not the position
+				sfx = ":sent-ahead"
+				how = fmt.Sprintf("; requests %d..%d were written back to back before any of their answers was read (answers are matched in order)", first, first+m-1)
+			}
+			v.Failf(fmt.Sprintf("C06:answers-per-request:%d:%s:%s%s", len(answers), class, path, sfx), "request %d (%s, %s): the delegate read %d answers before one second of silence: %s%s",
+				k, class, path, len(answers), strings.Join(kinds, ", "), how)
 			return
 		}
 		a := answers[0]
@@ -964,6 +1072,19 @@ func c06Judge(c c06Case, evs []c06Ev, v *vlib.Verdict) {
 		v.Label("answer:" + a.Note)
 		v.Label("class:" + class + ":" + path)
 	}
+}
+
+// c06Group returns the first request and the size of the send-ahead group request k belongs to.
+func c06Group(c c06Case, k int) (first, m int) {
+	first = k
+	for first > 0 && c.Reqs[first].Ahead {
+		first--
+	}
+	m = 1
+	for first+m < len(c.Reqs) && c.Reqs[first+m].Ahead {
+		m++
+	}
+	return first, m
 }
 
 func c06Decisions(c c06Case) string {
@@ -1135,7 +1256,29 @@ func c06Classify(c c06Case, evs []c06Ev, v *vlib.Verdict) {
 		if k > 0 && c.Reqs[k].Tgt != c.Reqs[k-1].Tgt && len(c.Tgts) > 1 {
 			once("target-changes")
 		}
-		key = append(key, fmt.Sprintf("%c%d[%s]", dec[k], c.Reqs[k].Tgt, strings.Join(perReq[k], ",")))
+		how := ""
+		if k > 0 && c.Reqs[k].Ahead {
+			how = ">" // written right behind its predecessor
+			once("send-ahead")
+			if first, m := c06Group(c, k); k == first+m-1 {
+				v.Labelf("send-ahead:group-of-%d", m)
+			}
+			switch {
+			case !c.Reqs[k-1].Approve && c.Reqs[k].Approve:
+				once("send-ahead:approved-behind-refused")
+			case c.Reqs[k-1].Approve && !c.Reqs[k].Approve:
+				once("send-ahead:refused-behind-approved")
+			}
+		}
+		switch sp := c.Reqs[k].Split; {
+		case sp < 0 && how != "":
+			how += "|"
+			once("stream-pause:between-requests-sent-ahead")
+		case sp > 0:
+			how += "~"
+			once("stream-pause:inside-a-request")
+		}
+		key = append(key, fmt.Sprintf("%s%c%d[%s]", how, dec[k], c.Reqs[k].Tgt, strings.Join(perReq[k], ",")))
 	}
 	if name := func() string { _, _, n := c.trailer(); return n }(); name != "" {
 		v.Label("trailer:" + name)
@@ -1316,6 +1459,27 @@ func c06Gen(t *rapid.T) c06Case {
 			r.GFirst = rapid.SampledFrom([]byte{0, 1, 2, 4, 4, 5, 255}).Draw(t, "gfirst")
 		}
 		c.Reqs = append(c.Reqs, r)
+	}
+	// how the requests are put on the wire: strictly request / answer / request (as the
+	// project's own delegate does), some of them sent ahead, or all in one go; and where
+	// the byte stream pauses
+	switch ahead := rapid.SampledFrom([]int{0, 0, 1, 1, 2}).Draw(t, "send-ahead"); ahead {
+	case 1:
+		for k := 1; k < n; k++ {
+			c.Reqs[k].Ahead = rapid.Bool().Draw(t, "ahead")
+		}
+	case 2:
+		for k := 1; k < n; k++ {
+			c.Reqs[k].Ahead = true
+		}
+	}
+	for k := 0; k < n; k++ {
+		switch rapid.IntRange(0, 7).Draw(t, "pause") {
+		case 0:
+			c.Reqs[k].Split = -1
+		case 1:
+			c.Reqs[k].Split = rapid.IntRange(1, 800).Draw(t, "split")
+		}
 	}
 	if rapid.IntRange(0, 4).Draw(t, "has-trailer") == 0 {
 		c.Trailer = rapid.IntRange(1, 4).Draw(t, "trailer")
